@@ -208,7 +208,8 @@ def run_batch(tag, cases, cfg, opts=None, extra_prelude=''):
     for r in results:
         c = byid[r['id']]
         for sat in r.get('sat', []):
-            rep = replay_sat(nat, c, sat, cfg, d)
+            try: rep = replay_sat(nat, c, sat, cfg, d)
+            except Exception as e: rep = {'confirmed': False, 'why': 'replay error: ' + repr(e)[:200]}
             sat['replay'] = rep
             out['replays'].append({'id': c.id, 'label': sat['label'], 'confirmed': rep.get('confirmed'), 'why': rep.get('why', '')})
     # confirm memory findings natively: guard pages first, AddressSanitizer build second
